@@ -22,8 +22,10 @@ func NewSortedCache(maxSizeBytes uint64) *SortedCache {
 }
 
 func (s *SortedCache) Push(addValue []byte) {
+	if replaced, ok := s.tree.ReplaceOrInsert(addValue); ok {
+		s.byteSize -= uint64(len(replaced))
+	}
 	s.byteSize += uint64(len(addValue))
-	s.tree.ReplaceOrInsert(addValue)
 }
 
 func (s *SortedCache) Pop() (min []byte, ok bool) {
